@@ -343,6 +343,11 @@ def main():
 
 
 def check(prop, tier, seed, cfg, build, workdir, t0):
+    for old in glob.glob(os.path.join(VERIF, "replays", "%s-*" % prop)):
+        try:
+            os.remove(old)  # replays of an earlier run of this check would only confuse
+        except OSError:
+            pass
     known = known_findings(prop)
     known_ids = ",".join(k["id"] for k in known)
     violations = []  # replay paths
